@@ -4,6 +4,8 @@ package gomatrixserverlib
 
 import (
 	"context"
+	"encoding/json"
+	"errors"
 	"time"
 
 	"github.com/matrix-org/gomatrixserverlib/spec"
@@ -94,6 +96,84 @@ func vp_C15_send_join() {
 			vpAssert("local-signature-valid", VerifyJSON("local", "ed25519:L", ed25519.PublicKey(pubL), red) == nil)
 			vpAssert("origin-signature-kept", VerifyJSON("y", "ed25519:1", ed25519.PublicKey(pubY), red) == nil)
 		}
+	}
+	vpReach("accepted", herr == nil)
+	vpReach("rejected", herr != nil)
+}
+
+// vp:check C15 both K=24 timeout=1200
+// vp_C15_send_join_pseudo: HandleSendJoin in the pseudo-ID room version (org.matrix.msc4014): the join is signed with
+// the per-room key that is its sender ID and carries an mxid_mapping signed by the user's server. It is accepted
+// exactly when the mapping is validly signed by that server, the mapped user belongs to the requesting server, the
+// event is validly signed with the per-room key, and the usual room / event-ID / membership / ban conditions hold.
+func vp_C15_send_join_pseudo() {
+	ver := RoomVersionPseudoIDs
+	verImpl, err := GetRoomVersion(ver)
+	vpAssume(err == nil)
+	pubY, privY := vpKey("server-y")
+	_, privBad := vpKey("intruder")
+	pubL, privL := vpKey("local")
+	_, roomKey := vpKey("room-key-of-b")
+	_, otherRoomKey := vpKey("another-room-key")
+	sid := spec.SenderIDFromPseudoIDKey(ed25519.PrivateKey(roomKey))
+	room := vpRoom
+	user := "@b:y"
+
+	mapping := MXIDMapping{UserRoomKey: sid, UserID: user}
+	mappingKey := ed25519.PrivateKey(privY)
+	goodMapping := vpNondetBool("mapping_signature_good")
+	if !goodMapping {
+		mappingKey = ed25519.PrivateKey(privBad)
+	}
+	vpAssume(mapping.Sign("y", "ed25519:1", mappingKey) == nil)
+	membership := vpChoice("membership", spec.Join, spec.Leave)
+	content, err := json.Marshal(map[string]interface{}{"membership": membership, "mxid_mapping": mapping})
+	vpAssume(err == nil)
+
+	goodSig := vpNondetBool("event_signature_good")
+	evKey := ed25519.PrivateKey(roomKey)
+	if !goodSig {
+		evKey = ed25519.PrivateKey(otherRoomKey)
+	}
+	sk := string(sid)
+	eb := verImpl.NewEventBuilderFromProtoEvent(&ProtoEvent{SenderID: string(sid), RoomID: room, Type: spec.MRoomMember, StateKey: &sk,
+		PrevEvents: []string{"$0123456789012345678901234567890123456789abc"}, AuthEvents: []string{"$0123456789012345678901234567890123456789abd"}, Depth: 5, Content: content})
+	ev, err := eb.Build(time.Unix(1700000000, 0), spec.ServerName(sid), "ed25519:1", evKey)
+	vpAssume(err == nil)
+
+	rid, err := spec.NewRoomID(room)
+	vpAssume(err == nil)
+	origin := spec.ServerName(vpChoice("origin", "y", "z"))
+	existing := vpChoice("existing_membership", "", spec.Join, spec.Ban)
+	verifier := &vpKeyVerifier{keys: map[spec.ServerName]ed25519.PublicKey{"y": ed25519.PublicKey(pubY)}}
+	stored := ""
+	querier := func(roomID spec.RoomID, senderID spec.SenderID) (*spec.UserID, error) {
+		if senderID == sid {
+			return spec.NewUserID(user, true)
+		}
+		return nil, errors.New("unknown sender ID")
+	}
+	res, herr := HandleSendJoin(HandleSendJoinInput{
+		Context: context.Background(), RoomID: *rid, EventID: ev.EventID(), JoinEvent: ev.JSON(), RoomVersion: ver,
+		RequestOrigin: origin, LocalServerName: "local", KeyID: "ed25519:L", PrivateKey: ed25519.PrivateKey(privL),
+		Verifier: verifier, MembershipQuerier: &vpMembershipQuerier{existing}, UserIDQuerier: querier,
+		StoreSenderIDFromPublicID: func(ctx context.Context, senderID spec.SenderID, userID string, id spec.RoomID) error {
+			stored = string(senderID) + "=" + userID
+			return nil
+		},
+	})
+	want := membership == spec.Join && goodMapping && origin == "y" && goodSig && existing != spec.Ban
+	vpAssert("admission", (herr == nil) == want)
+	if herr == nil {
+		vpAssert("mapping-stored", stored == string(sid)+"="+user)
+		red, err := verImpl.RedactEventJSON(res.JoinEvent.JSON())
+		vpAssert("redactable", err == nil)
+		if err == nil {
+			vpAssert("local-signature-valid", VerifyJSON("local", "ed25519:L", ed25519.PublicKey(pubL), red) == nil)
+		}
+	}
+	if !goodMapping {
+		vpAssert("unverified-mapping-not-stored", stored == "")
 	}
 	vpReach("accepted", herr == nil)
 	vpReach("rejected", herr != nil)
